@@ -7,11 +7,83 @@ from props import C02
 ID = "C04"
 IMPORTS = ["CaresProps.C04"]
 LEAN_TARGETS = ["CaresProps.C04", "driver_codec"]
-THEOREMS = []
+THEOREMS = [
+    "Cares.C04.parse_sound",
+    "Cares.C04.parse_complete",
+    "Cares.C04.parse_iff_decode",
+    "Cares.C04.name_agrees",
+    "Cares.C04.escape_roundtrip",
+    "Cares.C04.escape_roundtrip_needs_nonempty",
+    "Cares.C04.split_escape",
+    # decide-obligations over the regenerated tables
+    "Cares.C04.scripts_match_rfc_formats",
+    "Cares.C04.escape_table_ok",
+    "Cares.Dns.scriptTable_ok",
+]
 GENERATORS = [gen_tables.gen_dns_tables] + C02._GEN_SCRIPTS
-TRUSTED = []
-ASSUMPTIONS = []
-EXPLANATION = ""
+TRUSTED = [
+    "Lean 4.33.0 kernel; axioms allowed: propext, Classical.choice, Quot.sound",
+    "the reading of the RFCs in CaresModel/Dns/Rfc.lean (declarative reference decoder, RDATA format table, "
+    "`supported`, `toRec`); its independence from the operational model is by construction (different structure) "
+    "and is cross-checked by a third artefact: the message generator is a plain RFC encoder from intended values",
+    "hand-written operational model of ares_dns_parse (CaresModel/Dns/{Bytes,Escape,Name,Parse}.lean) tied to the code "
+    "by the h_codec `parse` stream; ares_split_dns_name model tied by the `names` stream",
+    "generated tables (tools/gen_tables.py exhaustive probe; tools/gen_rrscripts.py clang AST field scripts)",
+    "harness/h_codec.c, harness/hcodec_dump.h, tools/gen_dns.py, tools/runner.py, tools/props/C04.py, C02.py",
+    "Lean compiler (driver_codec is the compiled form of the definitions the kernel checked)",
+]
+ASSUMPTIONS = [
+    "parse flags = 0 in the theorems (the flag-dependent RAW_RR rule is covered by the C02/C04 `parse` stream only)",
+    "allocation succeeds",
+    "several OPT RRs in one message: the reference ORs their extended-RCODE octets (RFC 6891 allows one OPT only)",
+]
+EXPLANATION = ("parse_sound / parse_complete: the operational parser model accepts exactly the messages the declarative "
+               "RFC reference decodes within the written-out supported subset, and reports exactly the decoded fields; "
+               "name layer equality; escape round trip. Tie: implementation vs operational model (`parse`), "
+               "implementation vs RFC reference decoder run in the Lean driver (`decode`), implementation vs the values "
+               "the generator encoded (monitor), ares_split_dns_name vs model (`names`).")
+
+
+def gen_names(rng, tier):
+    """presentation names: escaped forms of random labels (must split back to the labels), and free text"""
+    n = {"quick": 4, "thorough": 100}.get(tier, 1)
+    cases = []
+    for _ in range(700 * n):
+        k = rng.choice([0, 1, 1, 2, 3, 5])
+        labels = [gen_dns.rand_label(rng, rng.choice([3, 12, 63])) for _ in range(k)]
+        labels = [bytes(c for c in l if c != 0) or b"x" for l in labels]
+        text = gen_dns.pres_name(labels)
+        if rng.random() < 0.3:
+            text += b"."
+        if len(text) < 480:
+            cases.append(["# labels " + ",".join(hexs(l) for l in labels), "split %s" % hexs(text)])
+    alphabet = b'ab.\\019"$ \t\x7f\xff'
+    for _ in range(500 * n):
+        ln = rng.choice([0, 1, 2, 3, 5, 9, 20, 70, 260])
+        text = bytes(rng.choice(alphabet) for _ in range(ln))
+        cases.append(["split %s" % hexs(text)])
+    for nm in gen_dns.load_name_seeds():
+        t = bytes(c for c in nm.strip() if c != 0)[:480]
+        cases.append(["split %s" % hexs(t)])
+    return cases
+
+
+def mon_names(case, out):
+    """escaping round-trips: the wire labels written for the escaped text are the labels it was made from"""
+    bad = []
+    labels = None
+    for line, o in zip(case, out):
+        if line.startswith("# labels "):
+            labels = [bytes.fromhex(x) if x != "-" else b"" for x in line[len("# labels "):].split(",") if x]
+            continue
+        if line.startswith("split ") and labels is not None:
+            wire = b"".join(bytes([len(l)]) + l for l in labels) + b"\x00"
+            ok_len = all(1 <= len(l) <= 63 for l in labels) and (not labels or sum(len(l) for l in labels) + len(labels) - 1 <= 255)
+            want = "st=ok w=" + wire.hex() if ok_len else "st=badresp"
+            if o != want:
+                bad.append(("escape-roundtrip", "escaped name came back as %s, labels were %s" % (o[:120], want[:120])))
+            labels = None
+    return bad
 
 hexs = C02.hexs
 
@@ -91,6 +163,8 @@ def mon_intended(case, out):
 
 
 STREAMS = [
+    Stream("names", "h_codec", "driver_codec", gen_names, monitor=mon_names, nontrivial=C02.nontrivial,
+           compare=C02.compare, opkind=lambda l: l.split()[0]),
     # operational model + intended values (all flag words)
     Stream("parse", "h_codec", "driver_codec", C02.gen_parse, monitor=mon_intended, nontrivial=C02.nontrivial,
            compare=C02.compare, opkind=C02.STREAMS[0].opkind),
@@ -99,6 +173,17 @@ STREAMS = [
            driver_input=to_rfc, compare=compare_rfc, opkind=C02.STREAMS[0].opkind),
 ]
 
-LEVEL_TEXT = ""
-LEVEL_NOTE = ""
-TECHNIQUE = ""
+RULE = C02.RULE
+LEVEL_TEXT = ("Proof: Lean 4 theorems, for ALL byte strings, that the operational model of ares_dns_parse (flags 0) and an "
+              "independently structured declarative RFC 1035/2535/2782/3403/3596/6698/6891/7553/8659/9460 reference "
+              "decoder agree: parse_sound (accepted => reference decodes it and every header/question/RR field equals "
+              "the reference's, presented as the record API presents it), parse_complete (reference decodes + explicit "
+              "decidable `supported` => accepted), their conjunction as an equivalence, the name layer as an equality, "
+              "and escape_roundtrip / split_escape for presentation names. Tie: real ares_dns_parse vs the operational "
+              "model and, separately, vs the reference decoder run in the Lean driver; getters vs the values a plain "
+              "RFC encoder was given; ares_split_dns_name vs its model.")
+LEVEL_NOTE = ("Trusted: Lean kernel (propext, Classical.choice, Quot.sound); the reading of the RFCs in Rfc.lean; the "
+              "hand-written operational model as far as the streams exercise it; generated tables; harness, generator, "
+              "runner. Theorems are for parse flags = 0; other flag words are covered by correspondence only. "
+              "Finding F8 is repaired by a fix commit which the model follows.")
+TECHNIQUE = "Lean 4 refinement proof (operational parser = declarative RFC decoder on the supported subset) + three-way differential testing"
